@@ -78,7 +78,9 @@ theorem openSpan_eq_spec (c : Cfg) (e : Env) (hb : Below e.st e.rng) : openSpan 
 @[simp] theorem openSpan_st (c : Cfg) (e : Env) : (openSpan c e).2.2.2.st = e.st := by
   simp [openSpan]
 
-/-- **restore** (helper form): every program leaves the thread's active traceparent as it found it. -/
+/-- **restore** (helper form): every program leaves the thread's active traceparent as it found it — proved
+    together with the fact that polling a frame-wrapped future segment by segment (enter/exit around every
+    poll) threads the environment exactly like running the segments inside one entered frame. -/
 theorem restore (c : Cfg) : ∀ (p : Prog) (e : Env), (run c p e).st = e.st
   | .event, e => by simp [run, observeEvent]
   | .span cs, e => by
@@ -87,10 +89,59 @@ theorem restore (c : Cfg) : ∀ (p : Prog) (e : Env), (run c p e).st = e.st
     | none => simp [exitSt, enterSt, restoreList c cs]
     | some a => simp [exitSt]
   | .spanThread cs, e => by simp [run]
+  | .spanAsync cs, e => by
+    simp only [run]
+    cases hs : (openSpan c e).2.2.1 with
+    | none =>
+      have := polls_inactive c cs none (openSpan c e).2.2.2
+      simp [this, Frm.swap, restoreList c cs]
+    | some a =>
+      have := polls_active c cs a (openSpan c e).2.2.2
+      simp [this, Frm.swap]
   | .push tp cs, e => by simp [run]
   | .carry cs, e => by simp [run]
-  where restoreList (c : Cfg) : ∀ (ps : List Prog) (e : Env), (runList c ps e).st = e.st
+  where
+  restoreList (c : Cfg) : ∀ (ps : List Prog) (e : Env), (runList c ps e).st = e.st
   | [], e => rfl
   | p :: ps, e => by simp only [runList]; rw [restoreList c ps, restore c p]
+  polls_inactive (c : Cfg) : ∀ (ps : List Prog) (sl : Option Active) (e : Env),
+      runPolls c ps ⟨false, sl⟩ e = (⟨false, sl⟩, runList c ps e)
+  | [], sl, e => rfl
+  | p :: ps, sl, e => by
+    simp only [runPolls, runList, Frm.swap, Bool.false_eq_true, if_false]
+    rw [polls_inactive c ps sl]
+  polls_active (c : Cfg) : ∀ (ps : List Prog) (a : Active) (e : Env),
+      runPolls c ps ⟨true, some a⟩ e = (⟨true, some a⟩, { runList c ps { e with st := some a } with st := e.st })
+  | [], a, e => by simp [runPolls, runList]
+  | p :: ps, a, e => by
+    simp only [runPolls, runList, Frm.swap, if_true]
+    have h1 : (run c p { e with st := some a }).st = some a := restore c p _
+    generalize hr : run c p { e with st := some a } = e1 at h1 ⊢
+    obtain ⟨st1, rng1, calls1, out1⟩ := e1
+    simp only at h1
+    subst h1
+    rw [polls_active c ps a]
+
+/-- **Polling is transparent.** A span whose body is a future polled segment by segment — the frame entered
+    and exited around every poll, the slot swapped each time — behaves exactly like the span whose body runs
+    inside one entered frame. -/
+theorem run_spanAsync_eq (c : Cfg) (cs : List Prog) (e : Env) : run c (.spanAsync cs) e = run c (.span cs) e := by
+  have hst := openSpan_st c e
+  simp only [run]
+  rcases hO : openSpan c e with ⟨en, ch, sl, ⟨st1, rng1, calls1, out1⟩⟩
+  rw [hO] at hst
+  simp only at hst
+  subst hst
+  cases sl with
+  | none =>
+    simp only [Option.isSome_none, restore.polls_inactive, Frm.swap, Bool.false_eq_true, if_false, enterSt, exitSt]
+  | some a =>
+    simp only [Option.isSome_some, restore.polls_active, Frm.swap, if_true, enterSt, exitSt]
+    have h := restore.restoreList c cs { st := some a, rng := rng1, calls := calls1, out := out1 }
+    generalize runList c cs { st := some a, rng := rng1, calls := calls1, out := out1 } = r at h ⊢
+    obtain ⟨rst, rrng, rcalls, rout⟩ := r
+    simp only at h
+    subst h
+    simp [completeSpan]
 
 end EmitModel.Traceparent
